@@ -36,7 +36,7 @@ m = {
     "setup_cmd": "./setup.sh",
     "hooks": {
         "guard": "verif-overlay",
-        "enable": "go test -tags verif -overlay /verif/.work/ov/<kind>/overlay.json (the overlay is regenerated from /repo's working tree by harness/cmd/instrument on every check run; nothing is committed to /repo)",
+        "enable": "go test -tags verif -overlay /verif/.work/run/<pid>/ov/<kind>/overlay.json (the overlay is regenerated from /repo's working tree by harness/cmd/instrument on every check run; nothing is committed to /repo)",
         "baseline_off_cmd": "cd /repo && go build ./... && go test -vet=off -count=1 -timeout 25m ./... && cd sdk/go/hydraidego && go test -vet=off -count=1 -timeout 25m ./...",
         "source_commits": [],
         "add_only": True,
